@@ -6,7 +6,7 @@ from ..alg import Rat
 from ..loader import shape_error, anchor_error
 from ..sx import Walker, State, Cond, LambdaV
 from .. import orders
-from ..util import body_nodocstring, names_stored, unparse
+from ..util import subst_names, single_assignments, add_terms, body_nodocstring, names_stored, unparse
 
 TRACK = 'tracklib.core.track.Track'
 OPS = 'tracklib.core.operators'
@@ -208,10 +208,16 @@ def rule_P(ctx):
     """C02.P precedence, associativity, parentheses"""
     f = ctx.prog.func(UT + '.makeRPN')
     body = body_nodocstring(f)
-    loops = [s for s in body if isinstance(s, ast.For)]
-    if len(loops) != 1 or not isinstance(loops[0].iter, ast.List):
-        raise shape_error('makeRPN: operator group list not found', f.loc())
-    groups = [e.value for e in loops[0].iter.elts if isinstance(e, ast.Constant)]
+    loops = [s for s in body if isinstance(s, ast.For) and any(isinstance(x, ast.For) for x in s.body)]
+    if len(loops) != 1:
+        raise shape_error('makeRPN: loop over the operator groups not found', f.loc())
+    gl = loops[0]
+    it = gl.iter
+    if isinstance(it, ast.Name):
+        it = single_assignments(body).get(it.id, f.module.consts.get(it.id))
+    if not isinstance(it, (ast.List, ast.Tuple)) or not all(isinstance(e, ast.Constant) and isinstance(e.value, str) for e in it.elts):
+        raise shape_error('makeRPN: operator group list not found', f.loc(gl))
+    groups = [e.value for e in it.elts]
     pos = {}
     for gi, g in enumerate(groups):
         for ch in g:
@@ -226,30 +232,73 @@ def rule_P(ctx):
               '(first split = lowest precedence), with + - and * / sharing a level',
               witness={'groups (lowest precedence first)': groups, 'violated order constraints (a must be split before b)': bad,
                        'operators that must share a level': bad2,
-                       'why': 'e.g. a+1>b must parse as (a+1)>b: comparisons bind looser than + and -'}, node=loops[0], key='precedence')
-    inner = [s for s in loops[0].body if isinstance(s, ast.For)]
-    if len(inner) != 1:
-        raise shape_error('makeRPN: scan loop not found', f.loc(loops[0]))
+                       'why': 'e.g. a+1>b must parse as (a+1)>b: comparisons bind looser than + and -'}, node=gl, key='precedence')
+    inner = [s for s in gl.body if isinstance(s, ast.For)]
+    if len(inner) != 1 or not isinstance(inner[0].target, ast.Name) or not isinstance(gl.target, ast.Name):
+        raise shape_error('makeRPN: scan loop not found', f.loc(gl))
     sc = inner[0]
     w = Walker(f, loop_mode='skip')
-    r = w.range_info(sc.iter, State({'s': Rat.atom('s')}))
-    ctx.check(r is not None and w.rel.is_zero(r[0] - (Rat.atom('len(s)') - Rat.const(1))) and vr(r[1]) == '-1' and vr(r[2]) == '-1', 'C02.P', f,
+    pre = State()
+    for o in w.run(body[:body.index(gl)], pre):
+        pre = o.state
+    sv = vr(pre.env.get('s', Rat.atom('s')))
+    r = w.range_info(sc.iter, pre.fork())
+    ctx.check(r is not None and w.rel.is_zero(r[0] - (Rat.atom('len(%s)' % sv) - Rat.const(1))) and vr(r[1]) == '-1' and vr(r[2]) == '-1', 'C02.P', f,
               'the string is scanned from its last character to its first: the split happens at the right-most operator of the level (left associativity)',
-              witness={'range': [vr(x) for x in r] if r else None}, node=sc, key='scan-direction')
-    # depth bookkeeping: +1 on ')' and -1 on '(' for a right-to-left scan; split only at depth 0
+              witness={'range': [vr(x) for x in r] if r else None,
+                       'why': 'a left-to-right scan makes a-b-c evaluate as a-(b-c)'}, node=sc, key='scan-direction')
+    # depth bookkeeping: +1 on ')' and -1 on '(' for a right-to-left scan; split only at depth 0, at a character of the level
     pv = sc.target.id
-    t = unparse(sc)
-    inc = re.search(r"if s\[%s\] == '\)':\n\s+depth \+= 1" % pv, t) is not None
-    dec = re.search(r"if s\[%s\] == '\(':\n\s+depth -= 1" % pv, t) is not None
-    ctx.recognise(inc and dec, 'C02.P', f, "scanning right to left, ')' opens a group (+1) and '(' closes it (-1)", node=sc)
-    split = [n for n in ast.walk(sc) if isinstance(n, ast.If) and 'depth' in unparse(n.test) and any(isinstance(x, ast.Return) for x in n.body)]
-    oks = len(split) == 1 and unparse(split[0].test) in ('not depth and s[%s] in operator' % pv, 'depth == 0 and s[%s] in operator' % pv)
-    ctx.recognise(oks, 'C02.P', f, 'a split happens only outside parentheses (depth 0) at a character of the current level', node=sc)
-    if split:
-        rv = split[0].body[0].value if isinstance(split[0].body[0], ast.Return) else None
-        okr = rv is not None and unparse(rv).replace(' ', '') == ('makeRPN(s[:%s])+makeRPN(s[%s+1:])+[s[%s]]' % (pv, pv, pv))
-        ctx.recognise(okr, 'C02.P', f, 'RPN of a split = RPN(left part) + RPN(right part) + [operator]', node=split[0])
-    ctx.recognise("if s[0] == '(':\n        return makeRPN(s[1:-1])" in unparse(f.node), 'C02.P', f, 'a fully parenthesised string recurses on its inside', node=f.node)
+    dnames = [s.targets[0].id for s in gl.body if isinstance(s, ast.Assign) and isinstance(s.targets[0], ast.Name) and
+              isinstance(s.value, ast.Constant) and s.value.value == 0]
+    if len(dnames) != 1:
+        raise shape_error('makeRPN: parenthesis depth counter (reset to 0 for every level) not found', f.loc(gl))
+    dn = dnames[0]
+    st = pre.fork()
+    st.env.update({dn: Rat.atom('D'), gl.target.id: Rat.atom('LEVEL'), pv: Rat.atom(pv)})
+    cur = '%s[%s]' % (sv, pv)
+    n_ret = 0
+    for o in w.run(sc.body, st):
+        cjs = [cj for c, _ in o.state.conds for cj in c.conjuncts()]
+
+        def char_is(ch, positive):
+            return any(cj.kind == 'cmp' and cj.op == ('==' if positive else '!=') and {vr(cj.a), vr(cj.b)} == {cur, repr(ch)} for cj in cjs)
+        if char_is(')', True) and char_is('(', True):
+            continue
+        exp = Rat.atom('D') + Rat.const(1 if char_is(')', True) else (-1 if char_is('(', True) else 0))
+        if o.kind == 'fall':
+            got = o.state.env.get(dn)
+            ctx.check(isinstance(got, Rat) and w.rel.is_zero(got - exp), 'C02.P', f,
+                      "scanning right to left, ')' opens a group (+1), '(' closes it (-1), any other character leaves the depth alone",
+                      witness={'path': [repr(c) for c in cjs], 'depth after': vr(got), 'expected': vr(exp)}, node=sc, key='depth')
+        elif o.kind == 'return':
+            n_ret += 1
+            at0 = any((cj.kind == 'cmp' and cj.op == '==' and isinstance(cj.a, Rat) and isinstance(cj.b, Rat) and
+                       (w.rel.is_zero(cj.a - cj.b - exp) or w.rel.is_zero(cj.b - cj.a - exp))) or
+                      (cj.kind == 'not' and cj.items[0].kind == 'truth' and isinstance(cj.items[0].a, Rat) and w.rel.is_zero(cj.items[0].a - exp))
+                      for cj in cjs)
+            member = any(cj.kind == 'opaque' and cj.text == '%s in LEVEL' % cur for cj in cjs)
+            ctx.check(at0 and member, 'C02.P', f, 'a split happens only outside parentheses (depth 0) at a character of the current level',
+                      witness={'conditions of the split': [repr(c) for c in cjs], 'depth at the split': vr(exp)}, node=o.node, key='split-cond')
+            loc = single_assignments(sc.body)
+            for s_ in ast.walk(sc):
+                if isinstance(s_, ast.If) and o.node in s_.body:
+                    loc.update(single_assignments(s_.body))
+            terms = [unparse(t_).replace(' ', '') for t_ in add_terms(subst_names(o.node.value, loc))] if o.node.value is not None else []
+            lens = [n_.args[0].id for n_ in ast.walk(sc.iter) if isinstance(n_, ast.Call) and unparse(n_.func) == 'len' and n_.args and isinstance(n_.args[0], ast.Name)]
+            want = [x % {'s': lens[0] if lens else 's', 'p': pv} for x in ('makeRPN(%(s)s[:%(p)s])', 'makeRPN(%(s)s[%(p)s+1:])', '[%(s)s[%(p)s]]')]
+            ctx.check(terms == want, 'C02.P', f, 'RPN of a split = RPN(left part) + RPN(right part) + [operator]',
+                      witness={'returned': terms, 'expected': want}, node=o.node, key='split-value')
+    if n_ret == 0:
+        raise shape_error('makeRPN: no split found in the scan loop', f.loc(sc))
+    # operand: a fully parenthesised string recurses on its inside, anything else is a single token
+    tail = body[body.index(gl) + 1:]
+    tw = Walker(f, loop_mode='skip')
+    touts = [o for o in tw.run(tail, State({'s': Rat.atom('s')})) if o.kind == 'return']
+    rec = [o for o in touts if any(cj.kind == 'cmp' and cj.op == '==' and {vr(cj.a), vr(cj.b)} == {'s.strip()[0]', repr('(')}
+                                   for c, _ in o.state.conds for cj in c.conjuncts())]
+    ctx.recognise(len(touts) == 2 and len(rec) == 1 and vr(rec[0].value) == 'makeRPN(s.strip()[1:-1])', 'C02.P', f,
+                  'a fully parenthesised string recurses on its inside', node=f.node)
 
 
 def rule_S(ctx):
@@ -722,13 +771,83 @@ def rule_N(ctx):
     for q, fi in ctx.prog.functions.items():
         if q.startswith(TRACK + '.') and fi.name.endswith('__evaluateRPN'):
             g = fi
-    tg = unparse(g.node)
-    ctx.recognise('operand2 = stack.pop()\n            operand1 = stack.pop()' in tg and
-                  'self.__applyOperation(operand1, operand2, e, temp_af_counter)' in tg and 'temp_af_counter += 1' in tg, 'C02.N', g,
-                  'the stack machine pops the right operand first, applies (left, right, operator) and numbers its temporaries', node=g.node)
+    _stack_machine(ctx, g)
+
+
+def _stack_machine(ctx, g):
+    """one step of the RPN stack machine, on a symbolic token"""
+    body = body_nodocstring(g)
+    loops = [s for s in body if isinstance(s, ast.For)]
+    if len(loops) != 1 or not isinstance(loops[0].target, ast.Name):
+        raise shape_error('__evaluateRPN: token loop not found', g.loc())
+    lo = loops[0]
+    w = Walker(g, loop_mode='skip')
+    pre = State()
+    for o in w.run(body[:body.index(lo)], pre):
+        pre = o.state
+    ctx.recognise(unparse(lo.iter) == g.params[1], 'C02.N', g, 'the stack machine reads the tokens in RPN order', node=lo)
+    stacks = [k for k, v in pre.env.items() if isinstance(v, list) and not v]
+    opl = [k for k, v in pre.env.items() if isinstance(v, list) and '+' in v and '=' in v]
+    cnts = [k for k, v in pre.env.items() if isinstance(v, Rat) and v.isconst() and v.constval() == 0]
+    if len(stacks) != 1 or len(opl) != 1 or not cnts:
+        raise shape_error('__evaluateRPN: empty stack / operator list / temporaries counter not found', g.loc())
+    st = pre.fork()
+    st.env[stacks[0]] = Rat.atom('STACK')
+    st.env[opl[0]] = Rat.atom('OPERATORS')
+    for c in cnts:
+        st.env[c] = Rat.atom('CNT:' + c)
+    tok = lo.target.id
+    st.env[tok] = Rat.atom('TOK')
+    ext = g.params[2]
+    n_op = n_plain = 0
+    for o in w.run(lo.body, st):
+        if o.kind not in ('fall', 'continue'):
+            raise shape_error('__evaluateRPN: the token loop exits early', g.loc(o.node))
+        cjs = [repr(cj) for c, _ in o.state.conds for cj in c.conjuncts()]
+        evs = [e for e in o.state.events if e.kind == 'call']
+        pops = [e for e in evs if e.name == 'pop' and vr(e.recv) == 'STACK' and not e.args]
+        apps = [e for e in evs if e.name == 'append' and vr(e.recv) == 'STACK']
+        appl = [e for e in evs if e.name.endswith('__applyOperation')]
+        desc = {'path': cjs, 'calls': [e.value if isinstance(e.value, str) else repr(e) for e in evs]}
+        if 'TOK in OPERATORS' in cjs:
+            n_op += 1
+            ok = len(pops) == 2 and len(appl) == 1 and len(apps) == 1 and pops[0].seq < pops[1].seq < appl[0].seq < apps[0].seq
+            ctx.check(ok, 'C02.N', g, 'an operator token pops two operands, applies the operator and pushes the result', witness=desc, node=lo, key='op-step')
+            if not ok:
+                continue
+            a = appl[0].args
+            okl = len(a) == 4 and vr(a[0]) == pops[1].value and vr(a[1]) == pops[0].value and vr(a[2]) == 'TOK'
+            ctx.check(okl, 'C02.N', g, 'the operand popped first is the right operand: the operator is applied as (second popped, first popped, token)',
+                      witness={'applied to': [vr(x) for x in a], 'first popped': pops[0].value, 'second popped': pops[1].value,
+                               'why': 'a-b in RPN is [a, b, -]: b is on top of the stack'}, node=appl[0].node, key='operand-order')
+            cn = [c for c in cnts if len(a) == 4 and vr(a[3]) == 'CNT:' + c]
+            after = o.state.env.get(cn[0]) if cn else None
+            ctx.check(bool(cn) and isinstance(after, Rat) and w.rel.is_zero(after - Rat.atom('CNT:' + cn[0]) - Rat.const(1)), 'C02.N', g,
+                      'every application gets its own temporary number (the counter passed is incremented afterwards)',
+                      witness={'counter passed': vr(a[3]) if len(a) == 4 else None, 'counter after': vr(after) if after is not None else None,
+                               'why': 'two intermediate results sharing a number overwrite each other: (a+b)*(c+d) reads c+d twice'},
+                      node=appl[0].node, key='counter')
+            ctx.check(vr(apps[0].args[0]) == appl[0].value, 'C02.N', g, 'the result of the application is pushed', witness=desc, node=apps[0].node, key='push-result')
+        else:
+            n_plain += 1
+            isext = ('TOK in %s' % ext) in cjs
+            want = '%s[TOK]' % ext if isext else 'TOK'
+            ok = not pops and not appl and len(apps) == 1 and vr(apps[0].args[0]) == want and \
+                all(vr(o.state.env.get(c)) == 'CNT:' + c for c in cnts)
+            ctx.check(ok, 'C02.N', g, 'an operand token is pushed as it is (an external name is replaced by the external value)', witness=desc, node=lo, key='operand-step')
+    if n_op == 0 or n_plain < 2:
+        raise shape_error('__evaluateRPN: operator / operand steps not both found', g.loc(lo))
+
+
+def rule_X(ctx):
+    """C02.X no intermediate result of one expression is visible to the next (shared with C01.T)"""
+    from . import c01
+    from ..report import Proxy
+    c01.rule_T(Proxy(ctx, {'C01.T': 'C02.X'}))
 
 
 RULES = [
+    ('C02.X', rule_X, 'quick'),
     ('C02.P', rule_P, 'quick'),
     ('C02.S', rule_S, 'quick'),
     ('C02.T', rule_T, 'quick'),
